@@ -46,6 +46,7 @@ Inductive instr :=
 | IBroadcast                    (* cs.cond.Broadcast() *)
 | IWait                         (* cs.cond.Wait() *)
 | IIf (c : cnd) (b : list instr)
+| IIfElse (c : cnd) (a b : list instr)   (* if c { a } else { b }, neither branch ending the call *)
 | IWhile (c : cnd) (b : list instr)
 | IMkCtx (withmsg : bool)       (* ctx := context.WithValue(cs.ctx, gcpKey, &gcpContext{reqMsg: m}) *)
 | ICallStreamer (localctx : bool) (* realCS, err := cs.streamer(ctx | cs.ctx, ...) *)
@@ -230,6 +231,8 @@ Definition exec (P : prog) (s : core) (t : tid) (x : thr) (i : instr) (k : list 
       else [(LPanic t WWaitUnlocked, set_thr s t (set_st x TDead))]
   | IIf c b =>
       [(LTau t, set_thr s t (set_st x (TRun (if eval s x c then b ++ k else k))))]
+  | IIfElse c a b =>
+      [(LTau t, set_thr s t (set_st x (TRun (if eval s x c then a ++ k else b ++ k))))]
   | IWhile c b =>
       [(LTau t, set_thr s t (set_st x (TRun (if eval s x c then b ++ IWhile c b :: k else k))))]
   | IMkCtx wm => [(LTau t, cont s (set_lctx x wm))]
